@@ -84,6 +84,8 @@ type streamCfg struct {
 	FailRecvS int
 	FailSendR int
 	FailRecvR int
+	DieRecvR  int // the receiver's process "dies" at its n-th RecvMsg: nothing it sends afterwards is delivered, the peer reads EOF
+	DieSendS  int // the sender's process "dies" at its n-th SendMsg
 }
 
 type pipeShared struct {
@@ -108,6 +110,9 @@ type endpoint struct {
 	cfg      *streamCfg
 	failSend int
 	failRecv int
+	dieSend  int
+	dieRecv  int
+	dead     int32
 	sendN    int32
 	recvN    int32
 	inSend   int32
@@ -130,8 +135,8 @@ func newPipe(ctx context.Context, cfg *streamCfg, log *evLog) (*endpoint, *endpo
 	c1 := make(chan []byte, cfg.Cap)
 	c2 := make(chan []byte, cfg.Cap)
 	sh := &pipeShared{torn: make(chan struct{}), log: log}
-	s := &endpoint{name: "S", ctx: ctx, in: c2, out: c1, sh: sh, cfg: cfg, failSend: cfg.FailSendS, failRecv: cfg.FailRecvS, rng: rand.New(rand.NewSource(cfg.Seed*2 + 1))}
-	r := &endpoint{name: "R", ctx: ctx, in: c1, out: c2, sh: sh, cfg: cfg, failSend: cfg.FailSendR, failRecv: cfg.FailRecvR, rng: rand.New(rand.NewSource(cfg.Seed*2 + 2))}
+	s := &endpoint{name: "S", ctx: ctx, in: c2, out: c1, sh: sh, cfg: cfg, failSend: cfg.FailSendS, failRecv: cfg.FailRecvS, dieSend: cfg.DieSendS, rng: rand.New(rand.NewSource(cfg.Seed*2 + 1))}
+	r := &endpoint{name: "R", ctx: ctx, in: c1, out: c2, sh: sh, cfg: cfg, failSend: cfg.FailSendR, failRecv: cfg.FailRecvR, dieRecv: cfg.DieRecvR, rng: rand.New(rand.NewSource(cfg.Seed*2 + 2))}
 	s.gone = make(chan struct{})
 	r.gone = make(chan struct{})
 	s.peer, r.peer = r, s
@@ -145,6 +150,15 @@ func (e *endpoint) Context() context.Context { return e.ctx }
 // of the returned function is still alive).
 func (e *endpoint) closeSend() {
 	e.outOnce.Do(func() { atomic.StoreInt32(&e.returned, 1); close(e.gone) })
+}
+
+// die: the process using this end is gone (killed): whatever it still tries to send is lost, its calls fail, and the peer
+// reads end-of-stream once the packets already in flight are drained
+func (e *endpoint) die() {
+	if atomic.CompareAndSwapInt32(&e.dead, 0, 1) {
+		e.sh.log.add(logEv{End: e.name, Kind: "died"})
+		e.outOnce.Do(func() { close(e.gone) })
+	}
 }
 
 func (e *endpoint) pause() {
@@ -173,6 +187,12 @@ func (e *endpoint) SendMsg(m interface{}) error {
 	n := int(atomic.AddInt32(&e.sendN, 1))
 	if atomic.LoadInt32(&e.returned) != 0 {
 		atomic.AddInt32(&e.late, 1)
+		return errTorn
+	}
+	if e.dieSend != 0 && n >= e.dieSend {
+		e.die()
+	}
+	if atomic.LoadInt32(&e.dead) != 0 {
 		return errTorn
 	}
 	e.pause()
@@ -215,6 +235,12 @@ func (e *endpoint) RecvMsg(m interface{}) error {
 	n := int(atomic.AddInt32(&e.recvN, 1))
 	if atomic.LoadInt32(&e.returned) != 0 {
 		atomic.AddInt32(&e.late, 1)
+		return errTorn
+	}
+	if e.dieRecv != 0 && n >= e.dieRecv {
+		e.die()
+	}
+	if atomic.LoadInt32(&e.dead) != 0 {
 		return errTorn
 	}
 	e.pause()
